@@ -16,6 +16,13 @@ func RemoveTmpFiles(rootDir string) error {
 		if !strings.HasPrefix(info.Name(), "tmp") {
 			return nil
 		}
-		return os.RemoveAll(path)
+		if err := os.RemoveAll(path); err != nil {
+			return err
+		}
+		// Do not descend into a directory that no longer exists.
+		if info.IsDir() {
+			return filepath.SkipDir
+		}
+		return nil
 	})
 }
